@@ -722,6 +722,12 @@ func (e *Engine) invoke(st *State, fv FuncVal, args []Value, site ssa.Instructio
 		ret(st, nil)
 		return true
 	}
+	if len(st.ghost) > 0 {
+		if _, cut := st.ghost["cut:"+name]; cut && st.fr != nil && st.fr.caller != nil {
+			e.doReturn(st, zeroResults(st.fr.fn))
+			return true
+		}
+	}
 	if h, ok := intrinsics[name]; ok {
 		e.res.Intrinsics[name]++
 		return h(e, st, &callCtx{args: args, site: site, ret: ret, fn: fn})
@@ -1114,9 +1120,13 @@ var (
 	maxF64   *big.Rat
 )
 
+var minDenorm *big.Rat
+
 func init() {
 	maxF64 = new(big.Rat)
 	maxF64.SetFloat64(1.7976931348623157e308)
+	minDenorm = new(big.Rat)
+	minDenorm.SetFloat64(5e-324)
 }
 
 func isFin(f FloatVal) *Term  { return Eq(f.Kind, fkFinite) }
